@@ -5,6 +5,7 @@ import (
 	"fmt"
 	"io"
 	"os"
+	"strings"
 
 	"github.com/openacid/low/iohelper"
 
@@ -39,7 +40,8 @@ type c18Case struct {
 	// seeked between the steps; it must not influence the writer under test
 	Bystander bool `json:"bystander,omitempty"`
 	// Under selects the underlying io.WriterAt: "" = the scripted writer, "stacked" = another
-	// SectionWriter (offset 2, length 100) over it, "file" = an *os.File
+	// SectionWriter (offset 2, length 100) over it, "inner3" = a 3-byte SectionWriter (offset 2) over it
+	// with Base relative to that inner section, "file" = an *os.File
 	Under string `json:"underlying,omitempty"`
 	// Blind: the cursor is NOT read back (Seek(0, SeekCurrent)) between the steps, only once at
 	// the end - observing it must not be what keeps the writer correct
@@ -53,7 +55,7 @@ func init() {
 		Word32: true,
 		Level:  "model_checking",
 		Rule: "E2+E3: for every section (base in {0,5,2^40}, n in 0..4, thorough 0..7) a breadth-first search over the cursor states reachable inside the window [0, n+6] (observed through Seek(0, SeekCurrent)); from EVERY state EVERY operation of the alphabet {Write(len 0..6), WriteAt(len 0..6, off in [-1,n+1]), Seek(offset in [-7,n+2], whence in {-1,0,1,2,3})} × EVERY answer of the scripted underlying WriterAt {everything; k<len bytes with an error; k<len bytes without an error, k in {0,1,2}} is executed on a real SectionWriter positioned there by real calls. " +
-			"Independently every operation sequence of depth ≤3 (thorough ≤4) over a reduced alphabet runs on one object without any state merging (guards against hidden state) - alone and once more with a second SectionWriter over another underlying writer used between the steps (objects must not share state), once more WITHOUT reading the cursor back between the steps (observing it must not be what keeps the writer correct), once more over a SectionWriter stacked on the scripted writer and (fault-free sequences of ≤2 operations) over an *os.File whose content is read back -, and AtToWriter(w, off in {0,5}) runs every sequence of ≤3 Writes × answers. Big geometry: sections of length n in {0, 4, 2^31-1, 2^31, 2^31+1, 2^32, 2^32+3, 2^62} × base in {0,5,2^40} from every cursor in {0, 2^31-2, 2^32-2, n-3..n+2}: every Write(len 0..4) / WriteAt(len 0..4, off around n and around 2^31, 2^32) × answer, every Seek(off in [-3,3] ∪ {±n, n±1, 2^31, 2^32, 2^32+1} ∪ {the last positions of int64: MaxInt64-d relative to start / end / cursor, d in {0,1,4,5,6}}), each alone and followed blind by a Write or a relative Seek (a Seek whose target is a valid int64 relative to the section but whose absolute offset base+pos is not representable may be accepted or rejected - the statement leaves it open - and everything after it must follow the answer given). Long buffers: n in {2^16-1, 2^16, 2^16+1} × Write / WriteAt of 2^16-1, 2^16, 2^16+1, 2^17 bytes from cursors {0, 1, n-2^16, n-1, n} × answers {everything; k in {0, 1, 2^16-1, len-1} with / without an error} followed by a 1-byte Write. Oracle: the statement's cursor model — compared are return values (count, error class: nil / ErrShortWrite / the underlying error / some error for rejected Seeks), the exact list of non-empty (offset, bytes) calls the underlying writer received, containment in [base, base+n), the cursor afterwards and Size(). Non-trivial: transitions in which bytes reach the underlying writer or the cursor moves.",
+			"Independently every operation sequence of depth ≤3 (thorough ≤4) over a reduced alphabet runs on one object without any state merging (guards against hidden state) - alone and once more with a second SectionWriter over another underlying writer used between the steps (objects must not share state), once more WITHOUT reading the cursor back between the steps (observing it must not be what keeps the writer correct), once more over a SectionWriter stacked on the scripted writer and (fault-free sequences of ≤2 operations) over an *os.File whose content is read back -, and AtToWriter(w, off in {0,5}) runs every sequence of ≤3 Writes × answers. Over a SHORT real SectionWriter (3 bytes at offset 2) as the underlying writer: every section with start in [-2,4] and length 0..5 relative to it (starting before it, ending beyond it, outside it) × every sequence of ≤2 (thorough ≤3) operations of the reduced alphabet; the inner section is modelled by the same statement one level down. Big geometry: sections of length n in {0, 4, 2^31-1, 2^31, 2^31+1, 2^32, 2^32+3, 2^62} × base in {0,5,2^40} from every cursor in {0, 2^31-2, 2^32-2, n-3..n+2}: every Write(len 0..4) / WriteAt(len 0..4, off around n and around 2^31, 2^32) × answer, every Seek(off in [-3,3] ∪ {±n, n±1, 2^31, 2^32, 2^32+1} ∪ {the last positions of int64: MaxInt64-d relative to start / end / cursor, d in {0,1,4,5,6}}), each alone and followed blind by a Write or a relative Seek (a Seek whose target is a valid int64 relative to the section but whose absolute offset base+pos is not representable may be accepted or rejected - the statement leaves it open - and everything after it must follow the answer given). Long buffers: n in {2^16-1, 2^16, 2^16+1} × Write / WriteAt of 2^16-1, 2^16, 2^16+1, 2^17 bytes from cursors {0, 1, n-2^16, n-1, n} × answers {everything; k in {0, 1, 2^16-1, len-1} with / without an error} followed by a 1-byte Write. Oracle: the statement's cursor model — compared are return values (count, error class: nil / ErrShortWrite / the underlying error / some error for rejected Seeks), the exact list of non-empty (offset, bytes) calls the underlying writer received, containment in [base, base+n), the cursor afterwards and Size(). Non-trivial: transitions in which bytes reach the underlying writer or the cursor moves.",
 		Assumptions: []string{
 			"cursors beyond the window n+6 are executed once (as successors) but not expanded",
 			"zero-length writes: whether the underlying writer is called at all is not fixed by the statement, so empty calls are ignored in the comparison and only the benign answer is scripted for them",
@@ -133,6 +135,36 @@ func c18DataLen(d string) int64 {
 type c18Model struct {
 	base, n, cur int64
 	calls        []c18Call
+	// inner > 0: the underlying writer is itself a section [innerBase, innerBase+inner) over the
+	// scripted writer (a real SectionWriter in the implementation run, modelled here by the same
+	// statement one level down); base is then relative to that inner section
+	inner, innerBase int64
+}
+
+// underClass is one call of the writer the section under test sits on: the count
+// it accepts and the class of the error it returns ("" = nil).
+func (m *c18Model) underClass(p []byte, off int64, a c18Ans) (int, string) {
+	if m.inner == 0 {
+		k, fail := m.under(p, off, a)
+		if fail {
+			return k, "underlying"
+		}
+		return k, ""
+	}
+	// the inner section's WriteAt, per the statement
+	if off < 0 || off >= m.inner {
+		return 0, "ErrShortWrite"
+	}
+	e := ""
+	if int64(len(p)) > m.inner-off {
+		p = p[:m.inner-off]
+		e = "ErrShortWrite"
+	}
+	k, fail := m.under(p, m.innerBase+off, a)
+	if fail {
+		e = "underlying"
+	}
+	return k, e
 }
 
 func errClass(err error) string {
@@ -186,10 +218,10 @@ func (m *c18Model) step(op c18Op, salt int) string {
 			p = p[:m.n-m.cur]
 			e = "ErrShortWrite"
 		}
-		k, fail := m.under(p, m.base+m.cur, op.Ans)
+		k, ue := m.underClass(p, m.base+m.cur, op.Ans)
 		m.cur += int64(k)
-		if fail {
-			e = "underlying"
+		if ue != "" {
+			e = ue
 		}
 		return fmt.Sprintf("%d,%s", k, e)
 	case "writeat":
@@ -202,9 +234,9 @@ func (m *c18Model) step(op c18Op, salt int) string {
 			p = p[:m.n-op.Off]
 			e = "ErrShortWrite"
 		}
-		k, fail := m.under(p, m.base+op.Off, op.Ans)
-		if fail {
-			e = "underlying"
+		k, ue := m.underClass(p, m.base+op.Off, op.Ans)
+		if ue != "" {
+			e = ue
 		}
 		return fmt.Sprintf("%d,%s", k, e)
 	case "seek":
@@ -266,6 +298,11 @@ func c18Exec(cs c18Case) (got, want string, moved bool) {
 	switch cs.Under {
 	case "stacked":
 		under = iohelper.NewSectionWriter(u, 2, 100)
+	case "inner3":
+		// the underlying writer is a SHORT section (3 bytes at offset 2): the section under test
+		// may start before it, end beyond it or lie outside it altogether
+		under = iohelper.NewSectionWriter(u, 2, 3)
+		m.inner, m.innerBase = 3, 2
 	case "file":
 		f, err := os.CreateTemp("", "verif-c18-*")
 		if err != nil {
@@ -329,6 +366,13 @@ func c18Exec(cs c18Case) (got, want string, moved bool) {
 				gv = fmt.Sprintf("%d,nil", pos)
 			}
 		}
+		if m.inner > 0 && op.Len == 0 && (op.Op == "write" || op.Op == "writeat") {
+			// an EMPTY buffer over an underlying writer that rejects the position: whether the
+			// underlying writer is consulted for an empty write at all is not fixed by the statement
+			// (if it is, its error is propagated; if not, the write of nothing succeeds) - only the
+			// count is compared
+			gv, wv = strings.SplitN(gv, ",", 2)[0]+",(any)", strings.SplitN(wv, ",", 2)[0]+",(any)"
+		}
 		got += fmt.Sprintf("%s=%s;", op.Op, gv)
 		want += fmt.Sprintf("%s=%s;", op.Op, wv)
 		if sw != nil && (!cs.Blind || i == len(cs.Ops)-1) {
@@ -383,6 +427,20 @@ func c18Exec(cs c18Case) (got, want string, moved bool) {
 		}
 		if cs.Under == "stacked" {
 			off -= 2 // the scripted writer sits 2 bytes below the stacked section
+		}
+		if cs.Under == "inner3" {
+			// everything must stay inside the inner section [2,5) and inside the section under test
+			lo, hi := cs.Base+2, cs.Base+cs.N+2
+			if lo < 2 {
+				lo = 2
+			}
+			if hi > 5 {
+				hi = 5
+			}
+			if off < lo || off+l > hi {
+				got += fmt.Sprintf(" OUTSIDE-BOTH-SECTIONS[%d,%d)", off, off+l)
+			}
+			continue
 		}
 		if cs.Kind == "section" && (off < cs.Base || off+l > cs.Base+cs.N) {
 			got += fmt.Sprintf(" OUTSIDE-SECTION[%d,%d)", off, off+l)
@@ -574,6 +632,7 @@ func c18Run(c *mc.Ctx) {
 			c.ForceSample(c18Case{Kind: "section", Base: cf.base, N: cf.n, Ops: []c18Op{red[2], red[len(red)-2], red[4]}})
 		}
 	})
+	c18Inner3(c)
 	c18Big(c)
 	// AtToWriter
 	for _, off := range []int64{0, 5} {
@@ -608,6 +667,48 @@ func c18Run(c *mc.Ctx) {
 		c.Count(seqs, snt)
 	}
 	c.Add("traces_validated_against_impl", c.Int("transitions")+c.Int("unmerged_sequences")+c.Int("attowriter_sequences"))
+}
+
+// c18Inner3: the section under test over a real 3-byte SectionWriter (dynamic type of the
+// underlying writer = *SectionWriter), for every geometry relative to it: starting before it,
+// inside it, at its end and beyond it, ending inside and beyond it.
+func c18Inner3(c *mc.Ctx) {
+	type cfg struct{ base, n int64 }
+	var cfgs []cfg
+	for _, b := range []int64{-2, -1, 0, 1, 2, 3, 4} {
+		for n := int64(0); n <= 5; n++ {
+			cfgs = append(cfgs, cfg{b, n})
+		}
+	}
+	c.Par(len(cfgs), func(ci int) {
+		cf := cfgs[ci]
+		red := c18Reduced(cf.n)
+		var seqs, snt int64
+		run := func(h []c18Op) {
+			cs := c18Case{Kind: "section", Base: cf.base, N: cf.n, Under: "inner3", Ops: append([]c18Op(nil), h...)}
+			got, want, moved := c18Exec(cs)
+			seqs++
+			if moved {
+				snt++
+			}
+			if got != want {
+				c.Fail(5<<50|int64(ci)<<40|seqs, "section", "section/inner3", cs, got, want)
+			}
+		}
+		for _, a := range red {
+			run([]c18Op{a})
+			for _, b := range red {
+				run([]c18Op{a, b})
+				if c.Thorough {
+					for _, d := range red {
+						run([]c18Op{a, b, d})
+					}
+				}
+			}
+		}
+		c.Add("inner3_sequences", seqs)
+		c.Count(seqs, snt)
+	})
 }
 
 // c18Big: sections whose length does not fit 31/32 bits (cursor arithmetic must be
